@@ -120,5 +120,6 @@ def run(chk):
     c03.rule_failfields(chk)
     c06.rule_reserve_and_codec(chk)  # remote sub-tasks continue at the reserved position
     c09.rule_model(chk, prefix="C01")
+    c09.rule_orderings(chk, prefix="C01")
     c02.rule_uuid(chk)  # one task per top-level action: every root gets a uuid4() of its own
     common.rule_forwarding(chk, "C01")
